@@ -6,6 +6,7 @@ import XonshVerif.Generated.Regexes
 import XonshVerif.Model.DriverTok
 import XonshVerif.Properties.C03
 import XonshVerif.Properties.C09
+import XonshVerif.Properties.C08
 namespace XVC
 open XV XV.Rx
 
@@ -67,5 +68,51 @@ theorem gen_pseudo_progress : PseudoProgress XV.Driver.genPats := by
 theorem shipped_tokenizer_total (E : Env) (src : List Nat) :
     (tokenize E XV.Driver.genPats src).err ≠ some .loopFuel :=
   tokenize_total E _ gen_pseudo_progress src
+
+
+/-! ### C08: the f-string scanners consume what they report (hypothesis `FstrLen` of `tokens_in_position_order`) -/
+
+theorem lookupPat_minLen (l : List (String × Re)) (h : l.all (fun b => decide (1 ≤ minLen b.2)) = true) (q : String) :
+    1 ≤ minLen (lookupPat l q) := by
+  unfold lookupPat
+  cases hf : l.find? (·.1 = q) with
+  | none => simp [minLen]
+  | some b =>
+    obtain ⟨n, r⟩ := b
+    simp only []
+    have hmem := List.mem_of_find?_eq_some hf
+    rw [List.all_eq_true] at h
+    simpa using h _ hmem
+
+theorem fstring_scanners_min_length :
+    XV.Gen.startLBrace.all (fun b => decide (1 ≤ minLen b.2)) = true ∧ XV.Gen.endpats.all (fun b => decide (1 ≤ minLen b.2)) = true ∧
+    1 ≤ minLen XV.Gen.endRBrace ∧ 3 ≤ minLen (lookupPat XV.Gen.endpats "'''") ∧ 3 ≤ minLen (lookupPat XV.Gen.endpats "\"\"\"") := by
+  decide +kernel
+
+theorem gen_fstr_len : FstrLen XV.Driver.genPats := by
+  obtain ⟨h1, h2, h3, h4, h5⟩ := fstring_scanners_min_length
+  refine ⟨fun q => lookupPat_minLen _ h1 q, h3, ?_⟩
+  intro tok
+  unfold quoteOf
+  simp only []
+  split
+  · rename_i hq
+    simp only [Bool.or_eq_true, decide_eq_true_eq] at hq
+    rcases hq with hq | hq
+    · rw [hq]; exact h4
+    · rw [hq]; exact h5
+  · refine Nat.le_trans ?_ (lookupPat_minLen _ h2 _)
+    rw [List.length_drop]; omega
+
+/-- **C08 (ordering), instantiated on the regexes of the working tree**: on every text the tokenizer model finishes on,
+    with the shipped patterns, the tokens are in non-decreasing, non-overlapping position order. -/
+theorem shipped_tokens_in_position_order (E : Env) (src : List Nat) (hfin : (tokenize E XV.Driver.genPats src).err = none) :
+    (tokenize E XV.Driver.genPats src).toks.Pairwise (fun a b => a.stop ≤ b.start) ∧
+    ∀ t ∈ (tokenize E XV.Driver.genPats src).toks, t.start ≤ t.stop :=
+  tokens_in_position_order E _ gen_pseudo_progress gen_fstr_len src hfin
+
+/-- Non-vacuity on the shipped patterns: `f"a{x:>{w}}b{f'{y}'}"⏎` finishes with 18 tokens, f-string parts included. -/
+example : (tokenize ⟨[], []⟩ XV.Driver.genPats ("f\"a{x:>{w}}b{f'{y}'}\"\n".toList.map Char.toNat)).err = none ∧
+    (tokenize ⟨[], []⟩ XV.Driver.genPats ("f\"a{x:>{w}}b{f'{y}'}\"\n".toList.map Char.toNat)).toks.length = 18 := by decide +kernel
 
 end XVC
